@@ -22,8 +22,8 @@ Print Assumptions C03_fallback_total.
    characters gets a connected lattice, whatever the dictionary and the other providers offer. *)
 Theorem C03_fallback_total_simple :
   forall (conn : N -> N -> Z) (cands : nat -> list node) (o : Model.Oov.oovdef) (cs : list N),
-    (forall p m, In m (cands p) -> node_wf (length cs) p m) ->
-    exists L e, build conn cands (simple_fallback o cs) (length cs) = Some (L, e).
+    (forall p m, In m (cands p) -> node_wf (List.length cs) p m) ->
+    exists L e, build conn cands (simple_fallback o cs) (List.length cs) = Some (L, e).
 Proof. exact fallback_total_simple. Qed.
 Print Assumptions C03_fallback_total_simple.
 
